@@ -17,6 +17,7 @@ func runGenericJob(t *testing.T, j *Job, r *evid.Run, body Body, oracle func(x *
 	e := &Explorer{T: t, Policy: sc.Policy, FsPoints: sc.FsPoints, SelectAlts: sc.SelectAlts, Body: body, MaxExecs: j.MaxExecs}
 	out := &JobRes{}
 	sampled := false
+	visited := 0
 	e.Visit = func(x *Exec, prefix []int) {
 		r.Evaluations.Add(1)
 		r.Traces.Add(1)
@@ -47,6 +48,17 @@ func runGenericJob(t *testing.T, j *Job, r *evid.Run, body Body, oracle func(x *
 			r.Sample(d)
 		}
 		if len(viols) == 0 {
+			// determinism is asserted, not assumed: every 300th passing execution is replayed from its own
+			// choice sequence and must release exactly the same (thread, operation) sequence
+			visited++
+			if visited%300 == 1 {
+				y := RunOne(t, sc.Policy, sc.FsPoints, sc.SelectAlts, x.Choices, x.Trace, body)
+				r.Add("replays_checked", 1)
+				if y.Diverged != "" || len(y.Trace) != len(x.Trace) {
+					r.Add("divergences", 1)
+					out.Diverged = append(out.Diverged, fmt.Sprintf("replay of a passing schedule diverged (%s): %s (len %d vs %d)", sc, y.Diverged, len(y.Trace), len(x.Trace)))
+				}
+			}
 			return
 		}
 		for k := 0; k < 2; k++ {
